@@ -360,14 +360,15 @@ def run(ctx: Context) -> None:
         # scans take the first match in dataset order
         for q in ('emsarray.conventions.grid.CFGridTopology.latitude_name', 'emsarray.conventions.grid.CFGridTopology.longitude_name'):
             fi = ctx.func(q)
-            nx = [c for c in calls_in(fi) if dotted(c.func) == 'next' and c.args and isinstance(c.args[0], ast.GeneratorExp)]
+            fl_ = ctx.flow(fi)
+            nx = [c for c in calls_in(fi) if dotted(c.func) == 'next' and c.args and isinstance(fl_.resolve(c.args[0]), ast.GeneratorExp)]
             ok = False
             for c in nx:
-                it = norm_text(c.args[0].generators[0].iter)
+                it = norm_text(fl_.resolve(c.args[0]).generators[0].iter)
                 ok = ok or it in ('self.dataset.variables.items()', 'self.dataset.data_vars.values()', 'self.dataset.variables.values()',
                                   'self.dataset.data_vars.items()')
             ctx.check('R11.3', ok, "coordinate discovery takes the first match in dataset variable order", fi, nx[0] if nx else fi.node,
-                      construct=f"next(... for ... in {norm_text(nx[0].args[0].generators[0].iter) if nx else '?'})")
+                      construct=f"next(... for ... in {norm_text(fl_.resolve(nx[0].args[0]).generators[0].iter) if nx else '?'})")
         # the mesh variable: of the variables with cf_role mesh_topology, the 2-D one whatever its position
         # (a 1-D network listed first must not decide whether the dataset is a UGRID dataset)
         from .common import path_conditions
@@ -377,7 +378,7 @@ def run(ctx: Context) -> None:
         def role_filtered(e) -> bool:
             return mflow.reaches(e, lambda n: isinstance(n, ast.Compare) and "attrs.get('cf_role') == 'mesh_topology'" in norm_text(n)) and \
                 mflow.reaches(e, lambda n: norm_text(n) in ('self.dataset.data_vars.values()', 'self.dataset.data_vars.items()', 'self.dataset.data_vars'))
-        preferred, fallback = [], []
+        preferred, fallback, next_forms = [], [], []
         for r in mv.returns():
             conds = path_conditions(mv, r)
             if any('topology_key' in norm_text(t) and pol for t, pol in conds if not (isinstance(t, ast.Compare) and isinstance(t.ops[0], ast.Is))) or \
@@ -385,11 +386,18 @@ def run(ctx: Context) -> None:
                 continue
             two_d = any("attrs.get('topology_dimension') == 2" in norm_text(t) and pol for t, pol in conds)
             comp = mflow.resolve(r.value)
-            if isinstance(comp, ast.Call) and dotted(comp.func) == 'next' and comp.args and isinstance(comp.args[0], ast.GeneratorExp):
-                two_d = two_d or any("attrs.get('topology_dimension') == 2" in norm_text(i) for g_ in comp.args[0].generators for i in g_.ifs)
+            if isinstance(comp, ast.Call) and dotted(comp.func) == 'next' and comp.args and isinstance(mflow.resolve(comp.args[0]), ast.GeneratorExp):
+                gen_ = mflow.resolve(comp.args[0])
+                two_d = two_d or any("attrs.get('topology_dimension') == 2" in norm_text(i) for g_ in gen_.generators for i in g_.ifs)
+                if two_d and len(comp.args) == 2:
+                    # next(<2-D candidates>, <first candidate>): preference and fall-back in one expression
+                    both_ok = role_filtered(gen_.generators[0].iter) and role_filtered(comp.args[1])
+                    if both_ok:
+                        next_forms.append(r)
+                        continue
             (preferred if two_d else fallback).append(r)
-        ok = bool(preferred) and all(role_filtered(r.value) for r in preferred + fallback) and \
-            all(min(x.lineno for x in preferred) < f.lineno for f in fallback)
+        ok = (bool(preferred) or bool(next_forms)) and all(role_filtered(r.value) for r in preferred + fallback) and \
+            all(min(x.lineno for x in preferred + next_forms) <= f.lineno for f in fallback)
         ctx.check('R11.3', ok, "the mesh variable is looked for among the data variables with cf_role 'mesh_topology', and one with topology_dimension 2 is taken before any other, wherever it stands", mv,
                   (preferred or fallback or [mv.node])[0],
                   construct=f"returns preferring topology_dimension == 2: {[norm_text(r.value) for r in preferred]}; fall-back: {[norm_text(r.value) for r in fallback]}")
@@ -452,7 +460,7 @@ def run(ctx: Context) -> None:
                     and n.body and all(isinstance(s, ast.Raise) for s in n.body[-1:]) and not n.orelse \
                     and cfg.dominates(n, st_call):
                 guard_ok = True
-        ctx.check('R11.4', guard_ok, "the bind is dominated by `if state.is_bound(): raise`", bind, bcall)
+        ctx.check('R11.4', guard_ok or ok_refuse, "a second attachment is refused: the bind is dominated by `if state.is_bound(): raise`, or bind_convention (its only way in) refuses itself", bind, bcall)
         ctx.check('R11.4', len(bcall.args) == 1 and flow.canon(bcall.args[0]) == ('param', 'self'), "the convention bound is this instance", bind, bcall)
         sv = flow.resolve(bcall.func.value)
         ok_state = (isinstance(sv, ast.Call) and norm_text(sv.func) == 'State.get' and len(sv.args) == 1
@@ -535,7 +543,7 @@ VARIANTS = [
     V('C11', 'last-match', _R, "            return matches[0][0]", "            return matches[-1][0]", 'R11.2'),
     V('C11', 'cache-not-invalidated', _R, "        with suppress(AttributeError):\n            del self.conventions\n", "", 'R11.2'),
     V('C11', 'second-writer', _B, "        state.bind_convention(self)", "        state.convention = self", 'R11.4'),
-    V('C11', 'is-bound-test-removed', _B, "        if state.is_bound():\n            raise ValueError(\n                \"A convention has already been bound to this dataset, \"\n                \"cannot assign a new convention.\")\n", "", 'R11.4'),
+    V('C11', 'benign-is-bound-test-only-in-the-state', _B, "        if state.is_bound():\n            raise ValueError(\n                \"A convention has already been bound to this dataset, \"\n                \"cannot assign a new convention.\")\n", "", None),
     V('C11', 'accessor-returns-unbound-copy', _AC, "    convention.bind()\n    return convention", "    convention.bind()\n    return convention_class(dataset)", 'R11.4'),
     V('C11', 'accessor-ignores-bound', _AC, "    if state.convention is not None:\n        return state.convention\n", "", 'R11.4'),
     V('C11', 'mesh-variable-first-of-any-dimension', _U, "        for data_array in mesh_variables:\n            if data_array.attrs.get('topology_dimension') == 2:\n                return data_array\n", "", 'R11.3'),
